@@ -268,8 +268,16 @@ func InfoFor(hostname string, hostport, numplayers int) details.Info {
 		NumPlayers: numplayers, MaxPlayers: 16, MapName: "A-Bomb Nightclub"}
 }
 
+// DetailsFor: the probed details.  An odd player count comes with one player (whose two VIP-escape counters differ) and one
+// objective: what a success stores is exactly what was probed, members of slices included, however often the outcome is
+// applied on the way (to the prober's own copy, again to the latest record in a conflict callback).
 func DetailsFor(hostname string, numplayers int) details.Details {
-	return details.Details{Info: InfoFor(hostname, 10480, numplayers)}
+	d := details.Details{Info: InfoFor(hostname, 10480, numplayers)}
+	if numplayers%2 != 0 {
+		d.Players = []details.Player{{Name: "vip", Score: numplayers, VIPEscapes: 1, VIPEscapes2: 2, VIPKillsValid: 3, VIPKillsInvalid: 4}}
+		d.Objectives = []details.Objective{{Name: "obj", Status: 1}}
+	}
+	return d
 }
 
 // ---------------------------------------------------------------------------- client specs
